@@ -198,9 +198,13 @@ def delete(ex, s, st):
 # ---------------------------------------------------------------------------------------------- builtins
 def b_len(ex, e, st):
     v = ex.ev(e.args[0], st)
-    from pyvc.sym import PairSeq
-    if isinstance(v, (Seq, PairSeq)):
+    from pyvc.sym import PairSeq, DictV, LazySeq
+    if isinstance(v, (Seq, PairSeq, LazySeq)):
         return v.n
+    if isinstance(v, DictV):
+        return v.order.n
+    if isinstance(v, tuple) and v and v[0] == "dictview":
+        return v[2].order.n
     if isinstance(v, Tup):
         return iv(len(v.items))
     if isinstance(v, Mat):
@@ -377,6 +381,9 @@ def method(ex, e, st):
             return const_str("")
         raise U("join of a non-character list")
     base = ex.ev(f.value, st)
+    from pyvc.sym import DictV as _DictV
+    if isinstance(base, _DictV) and attr in ("items", "keys", "values"):
+        return ("dictview", attr, base)
     if isinstance(base, Obj):
         from pyvc import library
         return library.obj_method(ex, e, st, base, attr)
@@ -424,7 +431,14 @@ def method(ex, e, st):
         from pyvc import library
         return library.str_map(ex, e, st, base, attr)
     if attr == "tolist" and isinstance(base, Seq):
-        return Seq("list", base.elem, base.arr, base.n, base.start, base.delta)
+        out = Seq("list", base.elem, base.arr, base.n, base.start, base.delta)
+        if getattr(base, "maxlen", None) is not None:
+            out.maxlen = base.maxlen
+        return out
+    from pyvc.sym import LazySeq, MatLazy
+    if attr == "astype" and isinstance(base, (LazySeq, MatLazy, Mat)):
+        from pyvc import library
+        return library.astype(ex, e, st, base)
     if attr == "astype" and isinstance(base, Seq):
         from pyvc import library
         return library.astype(ex, e, st, base)
